@@ -43,19 +43,21 @@ fn gen_program(c: &mut Chooser) -> String {
     let p2 = spell("receiver", [1usize, 0, 2, 3, 4][c.choose(5)]);
     let e1 = spell("limit", c.choose(5));
     let e2 = spell("tag", c.choose(5));
-    let third = c.choose(4); // 0: no third param, 1: unused param, 2: used param, 3: collides with a1 after lower-casing
+    // 0: no third param, 1: unused param, 2: used param, 3: collides with a1 after lower-casing,
+    // 4: collides with the party p1, 5: collides with the env field e1 (collisions across kinds of declared keys)
+    let third = c.choose(6);
     let env_used = c.choose(3); // 0: e1 used, 1: none used, 2: both used
     let with_policy = c.flag();
+    let other_case = |x: &str| if x == x.to_lowercase() { x.to_uppercase() } else { x.to_lowercase() };
     let a3 = match third {
-        3 => {
-            if a1 == a1.to_lowercase() {
-                a1.to_uppercase()
-            } else {
-                a1.to_lowercase()
-            }
-        }
+        3 => other_case(&a1),
+        4 => other_case(&p1),
+        5 => other_case(&e1),
         _ => "extra".to_string(),
     };
+    // a second party / env field that differs from the first only in case
+    let p2 = if c.flag() { other_case(&p1) } else { p2 };
+    let e2 = if c.flag() { other_case(&e1) } else { e2 };
     let mut s = String::new();
     s.push_str(&format!("env {{\n    {e1}: Int,\n    {e2}: Bytes,\n}}\n"));
     s.push_str(&format!("party {p1};\nparty {p2};\n"));
@@ -80,7 +82,7 @@ fn gen_program(c: &mut Chooser) -> String {
     if env_used == 2 {
         meta.push(format!("        3: {e2},"));
     }
-    if third == 2 || third == 3 {
+    if third >= 2 {
         meta.push(format!("        4: {a3},"));
     }
     s.push_str(&format!("    metadata {{\n{}\n    }}\n", meta.join("\n")));
